@@ -31,7 +31,7 @@ void ir_check_access(u64 a, u64 n) {
 #endif
 #ifdef NATIVE_REPLAY
 void harness(void);
-int main(void) { harness(); printf(ir_native_fail ? "REPLAY: violation reproduced\n" : "REPLAY: no assertion failed\n"); return 0; }
+int main(void) { harness(); __builtin_printf(ir_native_fail ? "REPLAY: violation reproduced\n" : "REPLAY: no assertion failed\n"); return 0; }
 unsigned long long nondet_u64(void) { return 0; }
 #endif
 #endif
